@@ -272,6 +272,12 @@ fn load_overrides(config: Config, opt: &Opt) -> Config {
     };
     if let Some(call_parentheses) = opt.format_opts.call_parentheses {
         new_config.call_parentheses = call_parentheses.into();
+        // The deprecated `no_call_parentheses` setting of a configuration file is combined with `call_parentheses`
+        // when formatting: it must give way as well, or `--call-parentheses Always` would have no effect
+        #[allow(deprecated)]
+        {
+            new_config.no_call_parentheses = false;
+        }
     };
     if let Some(space_after_function_names) = opt.format_opts.space_after_function_names {
         new_config.space_after_function_names = space_after_function_names.into();
